@@ -102,6 +102,7 @@ type Options struct {
 	TaskTimeout time.Duration
 	Trace       bool
 	CaseLimit   map[string]int
+	StubStr     []string
 }
 
 type worker struct {
@@ -124,6 +125,13 @@ func newWorker(prog *ssa.Program, opts Options, harnessPkgs []string) (*worker, 
 		m.HarnessP[p] = true
 	}
 	m.Trace = opts.Trace
+	for _, name := range opts.StubStr {
+		name := name
+		m.intr[name] = func(m *Machine, fr *frame, a []Value) Value {
+			m.stub(name)
+			return Str{S: "<" + name + ">"}
+		}
+	}
 	return &worker{ctx: ex.Ctx, solver: ex.Solver, m: m, prog: prog, opts: opts, initErr: map[*ssa.Package]error{}}, nil
 }
 
